@@ -60,6 +60,65 @@ def witness_dep_swap(out, findings):
     return 3
 
 
+def witness_restore_fault(out):
+    """Model-free: an I/O fault in the middle of restoring a cached directory output (the workspace hits a file-size limit while
+    a 300 kB file is copied back).  The faulted build may fail; if it reports success, and in any case the next fault-free
+    build, every output must be byte-identical to a from-scratch build (a truncated restore must not be taken for a hit and
+    must not poison the results of dependants)."""
+    import os, subprocess, resource, shutil
+    grog = vlib.build_grog()
+    base = os.path.join(vlib.scratch(), "restorefault")
+    shutil.rmtree(base, ignore_errors=True)
+    ws, root, ws2, root2 = (os.path.join(base, x) for x in ("ws", "root", "ws2", "root2"))
+
+    def render(w, fmt):
+        for pkg, body in (("gen", {"targets": [{"name": "gen", "inputs": ["in.txt"], "outputs": ["dir::out"],
+                                               "command": "rm -rf out && mkdir -p out && head -c 300000 /dev/zero | tr '\\0' g > out/big.txt && cat in.txt > out/small.txt"}]}),
+                          ("use", {"targets": [{"name": "use", "inputs": ["fmt.txt"], "outputs": ["sum.txt"], "dependencies": ["//gen:gen"],
+                                               "command": "cksum < ../gen/out/big.txt > sum.txt && cat ../gen/out/small.txt fmt.txt >> sum.txt"}]})):
+            os.makedirs(os.path.join(w, pkg), exist_ok=True)
+            json.dump(body, open(os.path.join(w, pkg, "BUILD.json"), "w"))
+        open(os.path.join(w, "gen", "in.txt"), "w").write("input\n")
+        open(os.path.join(w, "use", "fmt.txt"), "w").write(fmt)
+        open(os.path.join(w, "grog.toml"), "w").write("")
+    for d in (root, root2):
+        os.makedirs(d, exist_ok=True)
+
+    def run1(w, r, limit=None):
+        pre = (lambda: resource.setrlimit(resource.RLIMIT_FSIZE, (limit, limit))) if limit else None
+        return subprocess.run([grog, "build", "//..."], cwd=w, env=bl.grog_env(r, os.path.join(base, "trace")), preexec_fn=pre,
+                              stdout=subprocess.PIPE, stderr=subprocess.PIPE, text=True, timeout=120)
+    rd = lambda w, rel: open(os.path.join(w, rel), "rb").read() if os.path.isfile(os.path.join(w, rel)) else None
+    obs = lambda w: {rel: (lambda b: None if b is None else (len(b), b[-60:].decode("latin-1")))(rd(w, rel))
+                     for rel in ("gen/out/big.txt", "gen/out/small.txt", "use/sum.txt")}
+    render(ws, "v1\n")
+    b1 = run1(ws, root)
+    shutil.rmtree(os.path.join(ws, "gen", "out"), ignore_errors=True)
+    render(ws, "v2\n")
+    b2 = run1(ws, root, limit=65536)
+    after2 = obs(ws)
+    b3 = run1(ws, root)
+    after3 = obs(ws)
+    render(ws2, "v2\n")
+    cl = run1(ws2, root2)
+    clean = obs(ws2)
+    desc = ["//gen:gen writes dir::out (big.txt 300000 bytes, small.txt); //use:use depends on it and writes sum.txt = cksum of big.txt + small.txt + fmt.txt",
+            "build 1; rm -rf gen/out; edit use/fmt.txt; build 2 with RLIMIT_FSIZE=65536 (the restore of big.txt breaks half way); build 3 without the limit",
+            "from-scratch build of the same sources in a fresh workspace and cache root"]
+    rp = {"description": desc, "observed": {"rc": [b1.returncode, b2.returncode, b3.returncode, cl.returncode], "after_build_2": after2,
+                                           "after_build_3": after3, "clean": clean, "build2_output": (b2.stdout + b2.stderr)[-500:]}}
+    if b1.returncode or cl.returncode or b3.returncode:
+        out.violation("restore-fault witness: a fault-free build failed (rc %s)" % rp["observed"]["rc"], rp, no_input=True)
+    elif b2.returncode == 0 and after2 != clean:
+        out.violation("a build during which the restore of a cached directory output hit an I/O error reported success with outputs that "
+                      "differ from the from-scratch build: %s vs %s" % (after2, clean), rp)
+    elif after3 != clean:
+        out.violation("after a build in which the restore of a cached directory output hit an I/O error, the next fault-free build serves "
+                      "outputs that differ from the from-scratch build: %s vs %s" % (after3, clean), rp)
+    shutil.rmtree(base, ignore_errors=True)
+    return 2
+
+
 def run(out, tier):
     n_clean, n_full = (40, 40) if tier == "quick" else (600, 900)
     plans = [("witness-alias", hc.witness_alias_change()), ("witness-file-boundary", hc.witness_file_boundary())]
@@ -70,6 +129,7 @@ def run(out, tier):
     batch = hc.run_batch(plans, vlib.seed())
     findings = {f["class"]: f for f in vlib.known_findings("C01")}
     oracle_evals = witness_dep_swap(out, findings)
+    oracle_evals += witness_restore_fault(out)
     for name, h, notes, m in batch:
         for note in notes:
             if note[0] == "plan-error":
